@@ -24,6 +24,8 @@ const FX: [&str; 4] = ["c0", "f1", "f2", "f3"];
 pub enum Kind {
     Star,
     Explicit,
+    /// `from m import f1, f2, f3`: every fixture name, whether the target defines it, re-exports it or neither
+    ExplicitAll,
     Plugins,
     /// `pytest_plugins = ["<decoy>"]` followed by a second assignment that wins
     PluginsOverwritten,
@@ -68,6 +70,7 @@ impl ImportGraph {
                 match k {
                     Kind::Star => files[src].items.insert(0, Item::StarImport { module: m }),
                     Kind::Explicit => files[src].items.insert(0, Item::ExplicitImport { module: m, names: vec![FX[*d].to_string()] }),
+                    Kind::ExplicitAll => files[src].items.insert(0, Item::ExplicitImport { module: m, names: vec!["f1".into(), "f2".into(), "f3".into()] }),
                     Kind::Plugins => plugins.push(m),
                     Kind::PluginsOverwritten => {
                         overwritten = true;
@@ -91,7 +94,7 @@ impl ImportGraph {
 
 fn enumerate_graphs(max_edges: usize) -> Vec<ImportGraph> {
     let slots: Vec<(usize, usize)> = (0..4).flat_map(|s| (1..4).map(move |d| (s, d))).collect();
-    let kinds = [Kind::Star, Kind::Explicit, Kind::Plugins, Kind::PluginsOverwritten];
+    let kinds = [Kind::Star, Kind::Explicit, Kind::ExplicitAll, Kind::Plugins, Kind::PluginsOverwritten];
     let mut out = Vec::new();
     fn rec(slots: &[(usize, usize)], kinds: &[Kind], start: usize, cur: &mut Vec<(usize, usize, Kind)>, max: usize, out: &mut Vec<ImportGraph>) {
         for relative in [false, true] {
@@ -430,6 +433,6 @@ pub fn run(rep: &'static Report) {
     rep.set("distinct_nontrivial", (graphs.iter().filter(|g| !g.edges.is_empty()).count() + venvs.len()) as u64);
     rep.set("traces_validated_against_impl", s);
     rep.set("exhaustive", true);
-    rep.set("rule", "(i) every import graph with at most 3 (quick) / 4 (thorough) edges among the 12 possible (source ∈ {conftest.py, m1.py, m2.py, pkg/m3.py}) → (target ∈ {m1, m2, pkg.m3}) pairs, each edge a star import, an explicit import of the target's fixture, a pytest_plugins entry or a pytest_plugins entry preceded by an overwritten assignment, in absolute and relative spelling (levels 1 and 2), including self-loops, cycles and diamonds — materialised on tmpfs and scanned for real; the reference model (PytestLookup with transitive star/pytest_plugins export and per-name explicit export) gives for every name used by test_x.py the defining module or 'not reachable'; compared with go-to-definition (resolver walk), the available-fixtures view (completion walk), the set of modules the scan analysed (scanner walk) and the defining module recorded; (ii) the product of virtualenv layouts: entry-point target {module, package, submodule, mod:attr} × install {regular, editable inside the workspace, editable outside, workspace is the editable root} × {dist-info, egg-info} × raw/normalised distribution directory name × 4 .pth namings × pytest built-ins present/absent × plugin module {plain, star-imports a helper, declares pytest_plugins, explicit import} × chain length 1..3 to the helper's module × {a project conftest also star-imports that module, not}; expected: every plugin fixture found, third-party iff its source lives in site-packages or in an editable root outside the workspace, plugin iff reached from an entry point (propagated by star/pytest_plugins), visible from a project test, and no third-party fixture among workspace symbols");
+    rep.set("rule", "(i) every import graph with at most 3 (quick) / 4 (thorough) edges among the 12 possible (source ∈ {conftest.py, m1.py, m2.py, pkg/m3.py}) → (target ∈ {m1, m2, pkg.m3}) pairs, each edge a star import, an explicit import of the target's fixture, an explicit import of every fixture name (so that re-exported and unavailable names are requested too), a pytest_plugins entry or a pytest_plugins entry preceded by an overwritten assignment, in absolute and relative spelling (levels 1 and 2), including self-loops, cycles and diamonds — materialised on tmpfs and scanned for real; the reference model (PytestLookup with transitive star/pytest_plugins export and per-name explicit export) gives for every name used by test_x.py the defining module or 'not reachable'; compared with go-to-definition (resolver walk), the available-fixtures view (completion walk), the set of modules the scan analysed (scanner walk) and the defining module recorded; (ii) the product of virtualenv layouts: entry-point target {module, package, submodule, mod:attr} × install {regular, editable inside the workspace, editable outside, workspace is the editable root} × {dist-info, egg-info} × raw/normalised distribution directory name × 4 .pth namings × pytest built-ins present/absent × plugin module {plain, star-imports a helper, declares pytest_plugins, explicit import} × chain length 1..3 to the helper's module × {a project conftest also star-imports that module, not}; expected: every plugin fixture found, third-party iff its source lives in site-packages or in an editable root outside the workspace, plugin iff reached from an entry point (propagated by star/pytest_plugins), visible from a project test, and no third-party fixture among workspace symbols");
     rep.assume("aliased explicit imports are outside the grammar (documented as unsupported)");
 }
